@@ -483,6 +483,9 @@ class SATEncoder:
     ) -> Result[dict[str, int] | None]:
         """Solve the model using SAT encoding."""
         self._clauses = []
+        # Auxiliary variables left in the model by an earlier encoding would clash with this one
+        for name in [n for n in self.model._vars if n.startswith("_aux")]:
+            del self.model._vars[name]
         self._encode_vars()
 
         for constraint in self.model._constraints:
